@@ -72,6 +72,16 @@ CLAIMED['C09'] = dict(
          'not survive (smpte_offset hours 32..255, a known finding). The finite documented domains are enumerated completely against the real constructor.',
     note='Coq kernel; no axioms; text codec as in C07; ill-typed attribute values are tested on the implementation only; UnknownMetaMessage does no checks by design.',
     technique='Coq proof (bit-level lemmas, finite sweeps, induction on base-128 digits) + exhaustive model/implementation correspondence', design='5/C09')
+CLAIMED['C08'] = dict(
+    text='An independent description of the SMF format in Coq (reference decoder + reference encoder indexed by the choices the format leaves open). '
+         'Theorems: (write) the bytes of save() decode under the reference decoder to exactly the in-memory header and events, and equal the reference '
+         'encoder\'s canonical rendering (minimal quantities, running status exactly between equal consecutive channel statuses, F0 len data F7, FF 2F 00 last, '
+         'exact chunk lengths); (read) EVERY legal rendering - any padding of any quantity, running status used or not wherever legal, longer header chunk - '
+         'loads to exactly the file; the reference pair is coherent; clip=True is the identity on input that loads without it. All for unbounded sizes. '
+         'The correspondence drives the real save()/reader through the reference components, clip and debug on/off.',
+    note='Coq kernel; no axioms; layouts in the reference are restated with + * / mod only; debug output (printing) is not modelled: debug on/off is compared on the implementation; '
+         'the clip clause for data bytes above 127 (they become 127) is covered by correspondence, the theorem covers the no-change half.',
+    technique='Coq proof (refinement to an independent format specification, induction over events/tracks) + correspondence through the reference codec', design='5/C08')
 NOT_YET = {}
 ALL = ['C%02d' % i for i in range(1, 21)]
 
